@@ -144,6 +144,28 @@ fn tree_repr(r: Result<(sv::SyntaxTree, Defs), sv::Error>) -> String {
 /// present the same text pointer with different contents to the (pointer-keyed) memo table.
 pub fn exec(pool: &Pool, entry: Entry, input: usize, buf: &mut String) -> String {
     let (_, text, _) = INPUTS[input];
+    exec_text(pool, entry, input, text, buf)
+}
+
+/// String entry points that do not read the pooled file of the input.
+pub const STRING_ENTRIES: &[Entry] = &[
+    Entry::PpStr,
+    Entry::PpStrStrip,
+    Entry::ParseSvStr,
+    Entry::ParseSvStrInc,
+    Entry::ParseLibStr,
+    Entry::ParseLibStrInc,
+    Entry::TwoStep,
+    Entry::TwoStepInc,
+    Entry::RawPp,
+    Entry::RawSv,
+    Entry::RawSvInc,
+    Entry::RawLib,
+    Entry::RawLibInc,
+];
+
+/// Execute one call on an arbitrary text (the path / include directory of pooled input `input` is used).
+pub fn exec_text(pool: &Pool, entry: Entry, input: usize, text: &str, buf: &mut String) -> String {
     buf.clear();
     buf.push_str(text);
     let path = &pool.files[input];
